@@ -197,8 +197,35 @@ func optPtr(x int) *bool {
 }
 
 func (c *TrieCase) opt() trie.Opt {
+	if c.sharedOptPointers() {
+		// a caller may well write `f := false; Opt{DedupValue: &f, InnerPrefix: &f}`: fields
+		// with equal explicit values share ONE bool (seed C08-e: a library that writes a
+		// default through one pointer changes the other option too)
+		var shared [2]*bool
+		p := func(v int) *bool {
+			if v == 2 {
+				return nil
+			}
+			if shared[v] == nil {
+				b := v == 1
+				shared[v] = &b
+			}
+			return shared[v]
+		}
+		return trie.Opt{DedupValue: p(c.Opt4[0]), InnerPrefix: p(c.Opt4[1]), LeafPrefix: p(c.Opt4[2]), Complete: p(c.Opt4[3])}
+	}
 	return trie.Opt{DedupValue: optPtr(c.Opt4[0]), InnerPrefix: optPtr(c.Opt4[1]),
 		LeafPrefix: optPtr(c.Opt4[2]), Complete: optPtr(c.Opt4[3])}
+}
+
+// sharedOptPointers: a function of the input (so that a replay makes the same choice)
+func (c *TrieCase) sharedOptPointers() bool {
+	h := sha1.New()
+	for _, k := range c.Keys {
+		h.Write([]byte(k))
+		h.Write([]byte{1})
+	}
+	return (h.Sum(nil)[1]+byte(c.Opt4[0]+c.Opt4[1]*3+c.Opt4[2]*9+c.Opt4[3]*27))%3 != 0
 }
 
 // errClass maps an error of the library to the classes the spec knows.
